@@ -21,6 +21,12 @@ CHECKS = {
         "technique": SMT + "; rational identities in the scheme parameters",
         "design_ref": "DESIGN.md section 5 (C05)",
     },
+    "C03": {
+        "text": "Bounded symbolic check: every entry of every element matrix/vector is a fresh symbolic real (real and imaginary parts for complex data); the real Assembly / __Assemble_csr / __Get_csr_map / Get_rows_e / Get_columns_e run on them and every global entry is compared with an independent scatter-add oracle as a linear identity over all values, for single, mixed and boundary groups, slots absent for some groups, dofs per node 1-6, a seed-drawn renumbering (P K P^T), and all histories (bounded length) of assemblies interleaved with operations that change the cached pattern key.",
+        "note": "Trusted: Sym linear-form arithmetic, the python accumulation loop standing for np.bincount on objects, dense SymMatrix standing for scipy CSR when data is symbolic. Node numbering and meshes are enumerated (small hand-built meshes), not symbolic.",
+        "technique": SMT + "; linear identities over symbolic element entries, exhaustive bounded histories",
+        "design_ref": "DESIGN.md section 5 (C03)",
+    },
 }
 
 NOT_APPLICABLE = {
